@@ -60,9 +60,9 @@ def _small_c07(args):
         # operands with a history (sticky overflow/underflow/inaccuracy flags already raised)
         out.append(x_arith.observe_arith(fx, np, [pid], op, tx, ty, cxs, cys, route=routes[(idx + j + 1) % 3], dirty=True))
         # operands that received their codes by in-place writes after having been used (anything cached about them is stale)
-        out.append(x_arith.observe_arith(fx, np, [pid], op, tx, ty, cxs, cys, route=routes[(idx + j + 2) % 3], dirty=x_arith.HIST[(idx + j) % 4]))
+        out.append(x_arith.observe_arith(fx, np, [pid], op, tx, ty, cxs, cys, route=routes[(idx + j + 2) % 3], dirty=x_arith.HIST[(idx + j) % len(x_arith.HIST)]))
         out.append(x_arith.observe_arith(fx, np, [pid], op, tx, ty, [cxs[(idx * 7) % len(cxs)]], [cys[(idx * 7) % len(cys)]], scalar=True,
-                                         dirty=x_arith.HIST[(idx + j + 1) % 3]))
+                                         dirty=x_arith.HIST[(idx + j + 1) % len(x_arith.HIST)]))
     # scalar corner calls (per-element flags) and broadcasting (scalar with array, 2-D with 1-D)
     for op in ('add', 'sub', 'mul'):
         for a in corners(tx)[:4]:
@@ -185,7 +185,7 @@ def _small_c09(args):
             out.append(x_arith.observe_div(fx, np, [pid], tx, ty, cxs, cys, method=method, rnd=r,
                                            route=['operator', 'function', 'numpy'][(idx + len(out)) % 3]))
     out.append(x_arith.observe_div(fx, np, [pid], tx, ty, cxs, cys, method=['raw', 'repr'][idx % 2], rnd='trunc',
-                                   hist=x_arith.HIST[idx % 4]))
+                                   hist=x_arith.HIST[idx % len(x_arith.HIST)]))
     lo, hi = rng_of(tx)
     ly, hy = rng_of(ty)
     for a in sorted({lo, hi}):
